@@ -102,9 +102,11 @@ theorem ipUpTo_bit_lo (n v i k : Nat) (hi : i < n) :
   | zero => simp [ipUpTo]
   | succ k ih =>
     simp only [ipUpTo, ih, ipTerm, Nat.testBit_two_pow]
-    have h1 : (i = k + n) = False := by apply propext; constructor <;> intro h <;> omega
+    have h1 : i ≠ k + n := by omega
     by_cases hk : i = k
-    · subst hk; simp [h1]
+    · subst hk
+      have hn : n ≠ 0 := by omega
+      simp [hn]
     · have h2 : (i < k + 1) = (i < k) := by apply propext; omega
       simp [h1, hk, h2]
 
@@ -114,12 +116,13 @@ theorem ipUpTo_bit_hi (n v i k : Nat) (hk : k ≤ n) :
   | zero => simp [ipUpTo]
   | succ k ih =>
     simp only [ipUpTo, ih (by omega), ipTerm, Nat.testBit_two_pow]
-    have h4 : (i + n = k) = False := by apply propext; constructor <;> intro h <;> omega
+    have h4 : i + n ≠ k := by omega
     by_cases hik : i = k
-    · subst hik; simp [h4]
+    · subst hik
+      have hn : n ≠ 0 := by omega
+      simp [hn]
     · have h2 : (i < k + 1) = (i < k) := by apply propext; omega
-      have h3 : (i + n = k + n) = False := by apply propext; constructor <;> intro h <;> omega
-      simp [h2, h3, h4]
+      simp [h2, h4, hik]
 
 theorem ip_bit_lo (n v i : Nat) (hi : i < n) : ip n v (2 ^ i) = v.testBit (i + n) := by
   unfold ip; rw [ipUpTo_bit_lo n v i n hi]; simp [hi]
@@ -132,7 +135,7 @@ theorem ip_pair (n v i : Nat) (a b : Bool) (hi : i < n) :
     ip n v (bit i a ^^^ bit (i + n) b) = ((v.testBit i && b) ^^ (v.testBit (i + n) && a)) := by
   rw [ip_xor_right]
   unfold bit
-  cases a <;> cases b <;> simp [ip_zero_right, ip_bit_lo n v i hi, ip_bit_hi n v i hi]
+  cases a <;> cases b <;> simp [ip_zero_right, ip_bit_lo n v i hi, ip_bit_hi n v i hi, Bool.xor_comm]
 
 /-! ### transvections -/
 
